@@ -513,6 +513,7 @@ func checkC13(ctx *Ctx) *Result {
 	}
 	sort.Strings(rs)
 	r.sample(map[string]any{"ParsePattern_paths": len(paths), "accepting": nOK, "rejecting": nRej, "rejection_reasons": rs, "guards_checked": len(guards)})
+	lexerRules(ctx, r)
 	return r
 }
 
